@@ -283,7 +283,11 @@ def evaluate(child):
         snap = call['snap']
         if 'error' in snap:
             continue
-        parsed = itpcheck.parse_itp(call['text'])
+        try:
+            parsed = itpcheck.parse_itp(call['text'])
+        except itpcheck.ParseProblem as err:
+            child.fail('C02', 'itp-malformed', expected='a well-formed ITP', actual=str(err), detail={'moltype': snap.get('moltype')})
+            continue
         problems = itpcheck.compare(snap, parsed)
         stats.probes['itp_pipeline_call'] += 1
         if problems:
@@ -365,7 +369,11 @@ def evaluate_outputs(child, argv, stats):
     for name in set(names):
         fn = '%s.itp' % name
         if fn in tree:
-            itps[name] = itpcheck.parse_itp(tree[fn].decode())
+            try:
+                itps[name] = itpcheck.parse_itp(tree[fn].decode())
+            except itpcheck.ParseProblem as err:
+                child.fail('C03', 'itp-unreadable', expected='%s is a well-formed ITP' % fn, actual=str(err))
+                continue
             if itps[name]['moltype'] is None or itps[name]['moltype'][0] != name:
                 child.fail('C03', 'moltype-name', expected=name, actual=itps[name]['moltype'])
     for j, (name, atoms) in enumerate(zip(names, pdb_mols)):
